@@ -381,19 +381,41 @@ pub fn exec(v: &Value) -> Result<Value> {
 			};
 			let read = read_one(&bytes, &mask, &declines, "rec")?;
 			let sh = Shared::new(mask.clone(), declines.clone());
+			let tree_copy = tree.clone();
 			let replayed = tree.accept(Recording::<Vec<ClassFile>>::new(sh.clone()));
 			let events = sh.events();
 			let (rok, rerr, rtrees) = match replayed {
 				Ok(x) => (true, String::new(), x.inner),
 				Err(e) => (false, format!("{e:#}"), vec![]),
 			};
+			// the same class edited in memory: every row of the LocalVariableTypeTable folded into the entry of the LocalVariableTable
+			// with the same range, name and slot (one entry with descriptor and signature: the writer puts it into both tables).
+			// Replaying it delivers what replaying the unedited class delivers.
+			let mut tree_m = tree_copy;
+			for m in &mut tree_m.methods {
+				if let Some(code) = &mut m.code {
+					if let Some(lvs) = &mut code.local_variables {
+						let sigs: Vec<_> = lvs.iter().filter(|l| l.descriptor.is_none() && l.signature.is_some()).cloned().collect();
+						for sg in sigs {
+							if let Some(t) = lvs.iter_mut().find(|l| l.descriptor.is_some() && l.signature.is_none() && l.range == sg.range && l.name == sg.name && l.index == sg.index) {
+								t.signature = sg.signature.clone();
+								if let Some(i) = lvs.iter().position(|l| *l == sg) { lvs.remove(i); }
+							}
+						}
+					}
+				}
+			}
+			let shm = Shared::new(mask.clone(), declines.clone());
+			let replayed_m = tree_m.accept(Recording::<Vec<ClassFile>>::new(shm.clone()));
+			let events_m = shm.events();
+			let merged = json!({"ok": replayed_m.is_ok(), "skeleton": skeleton(&events_m)});
 			// the class rebuilt by the replay against the class built by the read with the same visitor
 			let (tree_equal, tree_diff) = compare_trees(&read.trees, &rtrees);
 			Ok(json!({
 				"tree": true,
 				"read": {"ok": read.ok, "events": events_json(&read.events), "err": err_head(&read.err)},
 				"replay": {"ok": rok, "events": events_json(&events), "err": err_head(&rerr), "skeleton": skeleton(&events)},
-				"tree_equal": tree_equal, "tree_diff": tree_diff,
+				"tree_equal": tree_equal, "tree_diff": tree_diff, "merged": merged,
 			}))
 		},
 		"scan" => Ok(scan()),
